@@ -784,6 +784,20 @@ def absval_canon(o):
     return _canon(absval_norm(o))
 
 
+_REAL_DIGITS = [15]
+
+
+def absval_canon_coarse(o, digits=12):
+    """absval_canon with base-10 REALs rounded to `digits` significant digits (used only to recognise
+    the open finding F29, never as an oracle)."""
+    old = _REAL_DIGITS[0]
+    _REAL_DIGITS[0] = digits
+    try:
+        return _canon(absval_norm(o))
+    finally:
+        _REAL_DIGITS[0] = old
+
+
 def _canon(a):
     if isinstance(a, tuple):
         if len(a) == 3 and a[0] == 'SetOf' and isinstance(a[2], tuple):
@@ -811,8 +825,8 @@ def _canon_real(t):
         # character-form REALs live as Python floats inside the library: 15 significant
         # decimal digits are what a double guarantees to carry through repr()/float()
         digits = len(str(abs(m)))
-        if digits > 15:
-            drop = digits - 15
+        if digits > _REAL_DIGITS[0]:
+            drop = digits - _REAL_DIGITS[0]
             m = int(round(m / float(10 ** drop)))
             e += drop
     while m % b == 0:
